@@ -393,6 +393,8 @@ def _order(cfg):
     r = random.Random(cfg.get("order_seed", 7))
     o = list(range(cfg["n"]))
     r.shuffle(o)
+    if cfg.get("sampler_len") is not None:
+        o = o[: cfg["sampler_len"]]  # a user sampler over a subset of the dataset (possibly empty, e.g. a rank without samples)
     return o
 
 
@@ -492,6 +494,8 @@ def gen_cfg(rng: random.Random, kinds=None, max_w=3, allow_shuffle=True, small=T
         cfg["sampler"] = rng.choice(samps)
         if cfg["sampler"] == "batch_sampler":
             cfg["bs"] = bs or 2
+        if cfg["sampler"] in ("custom_plain", "custom_stateful") and rng.random() < 0.35:
+            cfg["sampler_len"] = rng.choice([0, 0, 1, max(cfg["n"] - 1, 0), rng.randrange(0, cfg["n"] + 1)])
         if cfg["n"] == 0 and cfg["sampler"] in ("shuffle", "shuffle_gen"):
             cfg["n"] = 1  # torch rejects RandomSampler over an empty dataset at construction
     return cfg
